@@ -251,7 +251,10 @@ func (env *specEnv) eval(e *SExpr) sval {
 			// variable (a usable E-matching trigger; "off+b" inside a select is not).
 			// (only for universal binders: an existential needs a witness, and the relative index is
 			// the one that survives reallocation of the slice)
-			if so == smt.Int && e.Op == "forall" && !fv.opt.NoIndexCOV {
+			// a quantifier with explicit triggers keeps the relative index: its author chose the terms
+			// that instantiate it (library models of sort / compact are stated over off + i)
+			// (a quantifier whose explicit trigger IS an indexed read x[b] keeps the relative index)
+			if so == smt.Int && e.Op == "forall" && !triggersOnIndex(e.Pats, b.Name) && !fv.opt.NoIndexCOV {
 				names := map[string]bool{}
 				for _, bb := range e.Vars {
 					names[bb.Name] = true
@@ -270,6 +273,9 @@ func (env *specEnv) eval(e *SExpr) sval {
 		body := inner.evalBool(e.Args[0])
 		var pats []smt.Term
 		for _, grp := range e.Pats {
+			if len(grp) == 1 && grp[0] != nil && grp[0].Op == "ident" && grp[0].Name == "relidx" {
+				continue // marker, not a term
+			}
 			var parts []string
 			for _, pe := range grp {
 				parts = append(parts, inner.eval(pe).t.S)
@@ -317,6 +323,18 @@ func findIndexedSlice(e *SExpr, b string, bound map[string]bool) *SExpr {
 		}
 	}
 	return nil
+}
+
+// triggersOnIndex reports whether the quantifier carries the marker trigger {relidx}: its author
+// wants slice reads x[b] to keep the relative index off+b (the library models of sort / compact
+// are stated over relative indices, so their triggers match only that form).
+func triggersOnIndex(pats [][]*SExpr, b string) bool {
+	for _, grp := range pats {
+		if len(grp) == 1 && grp[0] != nil && grp[0].Op == "ident" && grp[0].Name == "relidx" {
+			return true
+		}
+	}
+	return false
 }
 
 func mentionsAny(e *SExpr, names map[string]bool) bool {
